@@ -1666,7 +1666,9 @@ CheckChildForTraversal(TraversalContext & data, DataNode * nextChild, int32 optK
                            // to make sure there is a NodePathMatcher for this node.
                            ConstMessageRef constDataRef;
                            if (data.IsUseFiltersOkay()) constDataRef = nextChild->GetData();
-                           if (((GetEntries().GetNumItems() == 1)&&((data.IsUseFiltersOkay() == false)||(subIter.GetValue().GetFilter()() == NULL)))||(MatchesNode(*nextChild, constDataRef, data.GetRootDepth())))
+                           // (Note that GetEntries() is keyed by clause-count, so we need to check its sub-table's size also, to know if we have just one match-string)
+                           const bool hasOnlyOneMatchString = ((GetEntries().GetNumItems() == 1)&&(iter.GetValue().GetNumItems() == 1));
+                           if (((hasOnlyOneMatchString)&&((data.IsUseFiltersOkay() == false)||(subIter.GetValue().GetFilter()() == NULL)))||(MatchesNode(*nextChild, constDataRef, data.GetRootDepth())))
                            {
                               int nextDepth;
                               if ((constDataRef() == NULL)||(constDataRef() == nextChild->GetData()())) nextDepth = data.CallCallbackMethod(*nextChild);  // the usual/simple case
